@@ -580,7 +580,24 @@ impl Relations {
             .collect::<Vec<_>>();
         entries.sort();
         // TODO: preserve comments
-        Self::from(entries)
+        // Substvars are kept, after the sorted entries
+        let substvars = self.0.children().filter(|n| n.kind() == SUBSTVAR);
+        let mut builder = GreenNodeBuilder::new();
+        builder.start_node(ROOT.into());
+        for (i, node) in entries
+            .into_iter()
+            .map(|e| e.0)
+            .chain(substvars)
+            .enumerate()
+        {
+            if i > 0 {
+                builder.token(COMMA.into(), ",");
+                builder.token(WHITESPACE.into(), " ");
+            }
+            inject(&mut builder, node);
+        }
+        builder.finish_node();
+        Relations(SyntaxNode::new_root_mut(builder.finish()))
     }
 
     /// Iterate over the entries in this relations field
